@@ -20,16 +20,42 @@ Qed.
 
 (* ------------------------------------------------------------------ no panic in prove *)
 
-Lemma prove_proof_some_no_panic : forall p q, prove_proof p (Some q) <> PPanic.
+Lemma prove_guarded_no_panic : forall p lp, prove_guarded p lp <> Err EPanic.
 Proof.
-  intros p q. unfold prove_proof. destruct (bh p =? 0); [discriminate|].
-  destruct (bh p <=? bh q); [discriminate|]. destruct (negb (N.eqb (sprev p) (sid q))); [discriminate|].
-  destruct (negb (sh p =? sh q + 1)); [discriminate|]. destruct (tree_ok p); discriminate.
+  intros p lp. unfold prove_guarded, prove_proof. destruct lp as [q|].
+  - destruct (N.eqb (sprev p) 0) eqn:E0; [discriminate|].
+    destruct (bh p =? 0); [discriminate|].
+    destruct (bh p <=? bh q); [discriminate|].
+    destruct (negb (N.eqb (sprev p) (sid q))); [discriminate|].
+    destruct (negb (sh p =? sh q + 1)); [discriminate|]. destruct (tree_ok p); discriminate.
+  - destruct (bh p =? 0) eqn:E; cbn [negb]; [|discriminate]. destruct (tree_ok p); discriminate.
 Qed.
 
-Lemma of_pres_some_no_panic : forall p q, of_pres (prove_proof p (Some q)) <> Err EPanic.
+(* the guards only reject what Prove would not accept: guarded = Ok  <->  Prove = POk *)
+Lemma prove_guarded_link : forall p lp, (prove_guarded p lp = Ok tt) <-> link lp p = true.
 Proof.
-  intros p q. pose proof (prove_proof_some_no_panic p q). destruct (prove_proof p (Some q)); cbn; congruence.
+  intros p lp. unfold prove_guarded, link, prove_proof. destruct lp as [q|].
+  - destruct (N.eqb (sprev p) 0) eqn:E0.
+    + split; [discriminate|]. destruct (bh p =? 0); [discriminate|].
+      destruct (bh p <=? bh q); discriminate.
+    + destruct (bh p =? 0); [split; discriminate|].
+      destruct (bh p <=? bh q); [split; discriminate|].
+      destruct (negb (N.eqb (sprev p) (sid q))); [split; discriminate|].
+      destruct (negb (sh p =? sh q + 1)); [split; discriminate|].
+      destruct (tree_ok p); cbn; split; auto; discriminate.
+  - destruct (bh p =? 0) eqn:E; cbn [negb]; [|split; discriminate].
+    destruct (tree_ok p); cbn; split; auto; discriminate.
+Qed.
+
+Lemma prove_guarded_unit : forall p lp, prove_guarded p lp = (if link lp p then Ok tt else prove_guarded p lp).
+Proof.
+  intros p lp. destruct (link lp p) eqn:E; [|reflexivity]. apply prove_guarded_link. assumption.
+Qed.
+
+Lemma prove_guarded_false : forall p lp, link lp p = false -> exists e, prove_guarded p lp = Err e.
+Proof.
+  intros p lp H. destruct (prove_guarded p lp) as [[]|e] eqn:E; [|eauto].
+  apply prove_guarded_link in E. congruence.
 Qed.
 
 Lemma prove_slot_no_panic : forall p ms lp, prove_slot p ms lp <> Err EPanic.
@@ -37,41 +63,30 @@ Proof.
   intros p ms lp. unfold prove_slot.
   destruct ((sh p - sh_of_prev lp - 1 <? 0) || (sh p - sh_of_prev lp - 1 >=? Z.of_nat (length ms))); [discriminate|].
   set (k := Z.to_nat (sh p - sh_of_prev lp - 1)).
-  assert (H0 : forall (c0 : res unit ecode), c0 <> Err EPanic ->
-            match c0 with
-            | Err e => Err e
-            | Ok _ =>
-                match (if 0 <? sh p - sh_of_prev lp - 1
-                       then match nth (k - 1) (updl ms k (Some p)) None with
-                            | Some q => of_pres (prove_proof p (Some q))
-                            | None => Ok tt
-                            end
-                       else Ok tt) with
-                | Err e => Err e
-                | Ok _ =>
-                    match nth (k + 1) (updl ms k (Some p)) None with
-                    | Some q => match of_pres (prove_proof q (Some p)) with
-                                | Ok _ => Ok (updl ms k (Some p)) | Err e => Err e end
-                    | None => Ok (updl ms k (Some p))
-                    end
-                end
-            end <> Err EPanic).
-  { intros c0 Hc0. destruct c0 as [u|e]; [|congruence].
-    destruct (0 <? sh p - sh_of_prev lp - 1).
-    - destruct (nth (k - 1) (updl ms k (Some p)) None) as [q|].
-      + pose proof (of_pres_some_no_panic p q). destruct (of_pres (prove_proof p (Some q))) as [u'|e]; [|congruence].
-        destruct (nth (k + 1) (updl ms k (Some p)) None) as [q'|]; [|discriminate].
-        pose proof (of_pres_some_no_panic q' p). destruct (of_pres (prove_proof q' (Some p))); [discriminate|congruence].
-      + destruct (nth (k + 1) (updl ms k (Some p)) None) as [q'|]; [|discriminate].
-        pose proof (of_pres_some_no_panic q' p). destruct (of_pres (prove_proof q' (Some p))); [discriminate|congruence].
-    - destruct (nth (k + 1) (updl ms k (Some p)) None) as [q'|]; [|discriminate].
-      pose proof (of_pres_some_no_panic q' p). destruct (of_pres (prove_proof q' (Some p))); [discriminate|congruence]. }
-  apply H0.
-  destruct (sh p - sh_of_prev lp - 1 =? 0); [|discriminate].
-  destruct lp as [q|].
-  - apply of_pres_some_no_panic.
-  - destruct (bh p =? 0) eqn:E; cbn [negb]; [|discriminate].
-    unfold prove_proof. rewrite E. destruct (tree_ok p); discriminate.
+  assert (Hg : forall a b (X : res (list (option prec)) ecode), X <> Err EPanic ->
+            match prove_guarded a b with Ok _ => X | Err e => Err e end <> Err EPanic).
+  { intros a b X HX. pose proof (prove_guarded_no_panic a b). destruct (prove_guarded a b); [assumption|congruence]. }
+  assert (H2 : match nth (k + 1) (updl ms k (Some p)) None with
+               | Some q => match prove_guarded q (Some p) with Ok _ => Ok (updl ms k (Some p)) | Err e => Err e end
+               | None => Ok (updl ms k (Some p))
+               end <> Err EPanic).
+  { destruct (nth (k + 1) (updl ms k (Some p)) None) as [q|]; [apply Hg|]; discriminate. }
+  assert (H1 : match (if 0 <? sh p - sh_of_prev lp - 1
+                      then match nth (k - 1) (updl ms k (Some p)) None with
+                           | Some q => prove_guarded p (Some q)
+                           | None => Ok tt
+                           end
+                      else Ok tt) with
+               | Err e => Err e
+               | Ok _ =>
+                   match nth (k + 1) (updl ms k (Some p)) None with
+                   | Some q => match prove_guarded q (Some p) with Ok _ => Ok (updl ms k (Some p)) | Err e => Err e end
+                   | None => Ok (updl ms k (Some p))
+                   end
+               end <> Err EPanic).
+  { destruct (0 <? sh p - sh_of_prev lp - 1); [|assumption].
+    destruct (nth (k - 1) (updl ms k (Some p)) None) as [q|]; [|assumption]. apply Hg. assumption. }
+  destruct (sh p - sh_of_prev lp - 1 =? 0); [|assumption]. apply Hg. assumption.
 Qed.
 
 Lemma sh_of_prev_from : forall local, sh_of_prev local = from local - 1.
@@ -127,40 +142,31 @@ Section P.
     rewrite Z.geb_leb.
     destruct (Nat.ltb_spec j (length ms)); destruct (Z.leb_spec (Z.of_nat (length ms)) (Z.of_nat j)); try lia.
     2:{ split; discriminate. }
-    assert (Hc2 : forall (A : Type) (y : A), True) by auto.
+    (* the forward check, common to both cases *)
+    assert (Hfwd : forall k,
+      (match nth (k + 1) (updl ms k (Some p)) None with
+       | Some q => match prove_guarded q (Some p) with Ok _ => Ok (updl ms k (Some p)) | Err e => Err e end
+       | None => Ok (updl ms k (Some p))
+       end = Ok x) <->
+      ((if match nth (k + 1) (updl ms k (Some p)) None with Some q => link (Some p) q | None => true end
+        then Some (updl ms k (Some p)) else None) = Some x)).
+    { intros k. destruct (nth (k + 1) (updl ms k (Some p)) None) as [q|].
+      - destruct (link (Some p) q) eqn:El.
+        + apply prove_guarded_link in El. rewrite El. split; intros H'; inversion H'; reflexivity.
+        + apply prove_guarded_false in El. destruct El as [e ->]. split; discriminate.
+      - split; intros H'; inversion H'; reflexivity. }
     destruct j as [|j'].
     - cbn [Z.of_nat Z.eqb Z.ltb Z.compare Nat.eqb].
-      assert (Hc0 : (match lp with
-                     | None => if negb (bh p =? 0) then Err ENoPrev else of_pres (prove_proof p lp)
-                     | Some _ => of_pres (prove_proof p lp)
-                     end) = if link lp p then Ok tt else
-                            (match lp with
-                             | None => if negb (bh p =? 0) then Err ENoPrev else of_pres (prove_proof p lp)
-                             | Some _ => of_pres (prove_proof p lp) end)).
-      { unfold link. destruct lp as [q|].
-        - destruct (prove_proof p (Some q)); reflexivity.
-        - destruct (bh p =? 0) eqn:E; cbn [negb].
-          + destruct (prove_proof p None); reflexivity.
-          + unfold prove_proof. rewrite E. reflexivity. }
-      rewrite Hc0. clear Hc0.
       destruct (link lp p) eqn:El; cbn [andb].
-      + destruct (nth (0 + 1) (updl ms 0 (Some p)) None) as [q|].
-        * unfold link. destruct (prove_proof q (Some p)); cbn [of_pres]; split; intros H'; inversion H'; reflexivity.
-        * split; intros H'; inversion H'; reflexivity.
-      + unfold link in El. destruct lp as [q|].
-        * destruct (prove_proof p (Some q)); cbn [of_pres]; try discriminate; split; discriminate.
-        * destruct (negb (bh p =? 0)); [split; discriminate|].
-          destruct (prove_proof p None); cbn [of_pres]; try discriminate; split; discriminate.
+      + apply prove_guarded_link in El. rewrite El. apply Hfwd.
+      + apply prove_guarded_false in El. destruct El as [e ->]. split; discriminate.
     - destruct (Z.eqb_spec (Z.of_nat (S j')) 0); [lia|]. cbn [Nat.eqb].
       destruct (Z.ltb_spec 0 (Z.of_nat (S j'))); [|lia].
       destruct (nth (S j' - 1) (updl ms (S j') (Some p)) None) as [q0|].
-      + unfold link at 1. destruct (prove_proof p (Some q0)); cbn [of_pres andb]; try (split; discriminate).
-        destruct (nth (S j' + 1) (updl ms (S j') (Some p)) None) as [q|].
-        * unfold link. destruct (prove_proof q (Some p)); cbn [of_pres]; split; intros H'; inversion H'; reflexivity.
-        * split; intros H'; inversion H'; reflexivity.
-      + cbn [andb]. destruct (nth (S j' + 1) (updl ms (S j') (Some p)) None) as [q|].
-        * unfold link. destruct (prove_proof q (Some p)); cbn [of_pres]; split; intros H'; inversion H'; reflexivity.
-        * split; intros H'; inversion H'; reflexivity.
+      + destruct (link (Some q0) p) eqn:El; cbn [andb].
+        * apply prove_guarded_link in El. rewrite El. apply Hfwd.
+        * apply prove_guarded_false in El. destruct El as [e ->]. split; discriminate.
+      + cbn [andb]. apply Hfwd.
   Qed.
 
   Lemma pre_good_g : forall i, pre_good i -> get i = GProof (g i) /\ sh (g i) = F + Z.of_nat i.
